@@ -1,7 +1,7 @@
-(* C07text.v — text-reader side of C07 (an error is permanent), C06 (no panic, no
+(* C07text.v — text-reader side of C07 (an error is permanent) and C06 (no panic, no
    loop without progress) over the model Text/TextReader.v, for ALL inputs and
    ALL navigation programs.  Statements only; proofs are in Text/TextReaderP.v,
-   Text/TextReaderNP.v and Text/TokenizerP.v. *)
+   Text/TextReaderNP.v, Text/TokenizerNP.v and Text/TokenizerP.v. *)
 From Coq Require Import String List NArith ZArith Bool.
 From IonV Require Import Base.Wire Data.Ion Bin.BinReader Text.Tokenizer Text.Skipper Text.TextReader
   Text.TextReaderP Text.TokenizerP Text.TextReaderNP Text.TokenizerNP Text.TextNum.
@@ -9,65 +9,96 @@ Import ListNotations.
 Open Scope N_scope.
 
 Section Any.
-(* any decimal / timestamp parser, any answer of the known nil-dereference sites *)
+(* any decimal / timestamp parser *)
 Variable pd : list N -> res dec.
 Variable pt : list N -> res (list N).
-Variable kp : forall A : Type, res A.
 
 (* every state a navigation program can reach keeps "err set => state trsDone" *)
 Theorem tr_sticky_reach : forall inp ioerr p,
-  sticky_inv (fst (x_run pd pt kp (x_init inp ioerr) p [])).
+  sticky_inv (fst (x_run pd pt (x_init inp ioerr) p [])).
 Proof. intros; apply run_inv, init_inv. Qed.
 
 (* the statement shared with the binary reader: once err is set, every call keeps it set and
    Next answers F; here moreover no call changes the reader at all and Err answers e1 *)
 Theorem tr_sticky : forall x, sticky_inv x -> x_err x = true -> forall o,
-  fst (x_op_res pd pt kp x o) = x /\
-  (o = ONext -> snd (x_op_res pd pt kp x o) = Ok [70]) /\
-  (o = OErr -> snd (x_op_res pd pt kp x o) = Ok [101; 49]).
-Proof. intros x H E o; exact (op_after_error pd pt kp x o H E). Qed.
+  fst (x_op_res pd pt x o) = x /\
+  (o = ONext -> snd (x_op_res pd pt x o) = Ok [70]) /\
+  (o = OErr -> snd (x_op_res pd pt x o) = Ok [101; 49]).
+Proof. intros x H E o; exact (op_after_error pd pt x o H E). Qed.
 
 (* by induction over the program: after any program that ends with err set, any further call
    leaves err set and a further Next answers F *)
 Theorem tr_sticky_run : forall inp ioerr p o,
-  let x := fst (x_run pd pt kp (x_init inp ioerr) p []) in
+  let x := fst (x_run pd pt (x_init inp ioerr) p []) in
   x_err x = true ->
-  x_err (fst (x_op_res pd pt kp x o)) = true /\
-  (o = ONext -> snd (x_op_res pd pt kp x o) = Ok [70]).
-Proof. intros inp ioerr p o; exact (sticky_after_run pd pt kp inp ioerr p o). Qed.
+  x_err (fst (x_op_res pd pt x o)) = true /\
+  (o = ONext -> snd (x_op_res pd pt x o) = Ok [70]).
+Proof. intros inp ioerr p o; exact (sticky_after_run pd pt inp ioerr p o). Qed.
+
+(* ---- no panic ----------------------------------------------------------------------------------------- *)
+(* the external parsers do not panic (ion.ParseDecimal / ion.ParseTimestamp return errors) *)
+Hypothesis pd_np : forall l, pd l <> Panic.
+Hypothesis pt_np : forall l, pt l <> Panic.
+
+(* one call on a well-formed reader does not panic and leaves a well-formed reader; the initial
+   reader is well-formed.  [WF]: exploded (state trsDone, err set), or: state trsBeforeContainer
+   only on an unfinished container token with a container type, state trsAfterValue only inside a
+   list or struct, an unfinished token is one skipValue accepts (or EOF at top level with eof set) *)
+Theorem tr_no_panic_step : forall x o, WF x ->
+  match x_op_res pd pt x o with
+  | (x', Ok _) => WF x'
+  | (_, Panic) => False
+  | _ => True
+  end.
+Proof. intros x o H; exact (op_ok pd pt pd_np pt_np x o H). Qed.
+Theorem tr_wf_init : forall inp ioerr, WF (x_init inp ioerr).
+Proof. exact init_WF. Qed.
+
+(* the full-strength statement: for no input and no program does the trace contain "panic",
+   i.e. no call of Next / StepIn / StepOut / any accessor panics *)
+Theorem tr_no_panic : forall inp ioerr p,
+  ~ In (s "panic") (snd (x_run pd pt (x_init inp ioerr) p [])).
+Proof. intros inp ioerr p; exact (run_ok pd pt pd_np pt_np p _ [] (init_WF inp ioerr) (fun K => K)). Qed.
+
+(* readLocalSymbolTable through a Next that behaves (NextOK): no panic, and on success the reader is
+   back after the struct with the context stack as before *)
+Theorem tr_read_lst_ok : forall api_next, NextOK api_next -> forall fuel x, WF x ->
+  match read_local_symbol_table api_next fuel x with
+  | (x', Ok _) => L x' /\ x_ctx x' = x_ctx x
+  | (_, Panic) => False
+  | _ => True
+  end.
+Proof. exact read_lst_ok. Qed.
 End Any.
 
-(* ---- no panic --------------------------------------------------------------------------------------- *)
-(* the full-strength statement: no input and no program make a call panic *)
-Definition tr_no_panic (kp : forall A : Type, res A) : Prop :=
-  forall inp ioerr p,
-    ~ In (s "panic") (snd (x_run parse_decimal_text parse_ts_text kp (x_init inp ioerr) p [])).
+(* the model as the driver instantiates it: Text/TextNum.v's parsers *)
+Theorem tr_no_panic_text : forall inp ioerr p,
+  ~ In (s "panic") (snd (x_run parse_decimal_text parse_ts_text (x_init inp ioerr) p [])).
+Proof. exact no_panic_run. Qed.
 
-(* it is false of the code that exists: IntValue on null.int (D02), typed nulls in a local symbol table (D03) *)
-Theorem tr_no_panic_refuted : ~ tr_no_panic (fun A => Panic).
-Proof. exact no_panic_refuted. Qed.
-Theorem tr_no_panic_refuted_lst : exists inp,
-  In (s "panic") (x_traverse parse_decimal_text parse_ts_text (fun A => Panic) inp false).
-Proof. exact no_panic_refuted_lst. Qed.
-
-(* what holds of the code that exists, for all inputs: the bare tokenizer + skipper, driven by their
-   protocol (Next, not called again after EOF; ReadValue / ReadNumber on the current token), never
-   panic: the panics of ReadValue, skipValue and scanForNumericType are unreachable *)
+(* the layers below, for all inputs: the bare tokenizer + skipper, driven by their protocol (Next, not
+   called again after EOF; ReadValue / ReadNumber on the current token), never panic *)
 Theorem tr_tokenizer_no_panic : forall inp ioerr ops, tk_run ops (t_init inp ioerr) <> Panic.
 Proof. exact tk_no_panic. Qed.
 (* SkipContainerContents (StepOut) never panics and leaves token / unfinished alone, from any state *)
 Theorem tr_skip_container_frame : forall c, tframe (t_skip_container_contents c).
 Proof. exact tframe_skip_container_contents. Qed.
-(* Next: if an unfinished token is one skipValue accepts, Next does not panic and afterwards the
-   unfinished flag is determined by the token *)
+(* Next: if an unfinished token is one skipValue accepts, Next does not panic; afterwards the unfinished
+   flag is determined by the token and a 0b / 0x token has its look-ahead in the push-back buffer *)
 Theorem tr_next_spec : forall t,
   (t_unfinished t = true -> skb (t_token t) = true) ->
   match t_next t with
-  | Ok (_, t') => t_unfinished t' = unf_of (t_token t')
+  | Ok (_, t') => tokpost t'
   | Panic => False
   | _ => True
   end.
 Proof. exact next_spec. Qed.
+(* readRadix after such a Next yields (-)0b.. / (-)0x.., on which parseInt's index expressions are safe *)
+Theorem tr_read_radix_shape : forall mk valid t, radix_ready t ->
+  match read_radix mk valid t with Ok (v, _) => radix_shape v | _ => True end.
+Proof. exact read_radix_shape. Qed.
+Theorem tr_parse_int_no_panic : forall v radix, radix = 10 \/ radix_shape v -> parse_int v radix <> Panic.
+Proof. exact parse_int_np. Qed.
 
 (* ---- progress: the fuelled loops do not run out of fuel ------------------------------------------------- *)
 (* whitespace and comments, with any comment handler, from any tokenizer state *)
@@ -81,25 +112,53 @@ Theorem tr_progress_radix_digits : forall fuel valid w t,
 Proof. exact radix_digits_progress. Qed.
 Theorem tr_progress_skip_digits : forall c t, skip_digits c t <> OutOfFuel.
 Proof. exact skip_digits_progress. Qed.
+(* the string, symbol and clob readers (escapes, line continuations, concatenated ''' segments with comments) *)
+Theorem tr_progress_strings : forall t,
+  read_string t <> OutOfFuel /\ read_long_string t <> OutOfFuel /\ read_quoted_symbol t <> OutOfFuel /\
+  read_clob t <> OutOfFuel /\ read_long_clob t <> OutOfFuel.
+Proof.
+  intros t. repeat split;
+    [apply read_string_progress | apply read_long_string_progress | apply read_quoted_symbol_progress
+    | apply (read_clob_progress t) | apply (read_clob_progress t)].
+Qed.
+(* skipContainerHelper (skipped containers, StepOut): whatever is nested inside (containers, strings, long
+   strings, quoted symbols, lobs, comments), the loop with fuel above the characters left never runs out of
+   fuel and hands no character back; SkipContainerContents as called by StepOut never runs out of fuel *)
+Theorem tr_progress_skip_container_loop : forall fuel term t,
+  (t_rem t < fuel)%nat -> ni (skip_container_helper fuel term) t.
+Proof. exact skip_container_progress. Qed.
+Theorem tr_progress_skip_container : forall c t, t_skip_container_contents c t <> OutOfFuel.
+Proof. exact skip_container_contents_progress. Qed.
 (* the fuel is linear in what is left of the input: |unread bytes| + |pushed-back characters| + 2 *)
 Theorem tr_fuel_linear : forall t, (t_fuel t <= length (t_in t) + length (t_buf t) + 2)%nat.
 Proof. exact fuel_linear. Qed.
 
 (* ---- the hypotheses are satisfiable by non-trivial objects -------------------------------------------------- *)
-(* a truncated list: the error is reached, and the state satisfies the invariant *)
+(* a truncated list: the error is reached, and the state satisfies both invariants *)
 Example sticky_witness :
-  let x := fst (x_run parse_decimal_text parse_ts_text (fun A => Panic)
+  let x := fst (x_run parse_decimal_text parse_ts_text
                       (x_init (s "[1, ") false) [ONext; OStepIn; ONext; ONext] []) in
-  x_err x = true /\ sticky_inv x.
-Proof. vm_compute. split; [reflexivity|right; reflexivity]. Qed.
+  x_err x = true /\ sticky_inv x /\ WF x.
+Proof. vm_compute. split; [reflexivity|split; [right; reflexivity|left; split; reflexivity]]. Qed.
+Example sticky_trace :
+  join_sp (snd (x_run parse_decimal_text parse_ts_text
+                      (x_init (s "[1, ") false) [ONext; OStepIn; ONext; ONext; OErr; ONext; OErr] []))
+  = s "T ok T F e1 F e1".
+Proof. vm_compute. reflexivity. Qed.
+(* the former panics (D02, D03) now answer: IntValue on null.int is nil, typed nulls in a symbol table are ignored *)
+Example null_int_intvalue :
+  join_sp (snd (x_run parse_decimal_text parse_ts_text (x_init (s "null.int") false) [ONext; OInt; OErr] []))
+  = s "T nil e0".
+Proof. vm_compute. reflexivity. Qed.
+Example lst_typed_null :
+  join_sp (snd (x_run parse_decimal_text parse_ts_text
+     (x_init (s "$ion_symbol_table::{imports:[{name:""x"",version:null.int,max_id:2}],symbols:[""a""]} $12") false)
+     [ONext; OSymbol; OErr] []))
+  = s "T k61.12 e0".
+Proof. vm_compute. reflexivity. Qed.
 Example tokenizer_run :
   match tk_run [KNext; KRead; KNext; KNext; KRead; KNext; KRead; KNext] (t_init (s "abc::[1, 2] 'q'") false) with
   | Ok t => t_token t = tokenEOF
   | _ => False
   end.
-Proof. vm_compute. reflexivity. Qed.
-Example sticky_trace :
-  join_sp (snd (x_run parse_decimal_text parse_ts_text (fun A => Panic)
-                      (x_init (s "[1, ") false) [ONext; OStepIn; ONext; ONext; OErr; ONext; OErr] []))
-  = s "T ok T F e1 F e1".
 Proof. vm_compute. reflexivity. Qed.
